@@ -484,8 +484,15 @@ fn gen_delegation_method<'s>(
             DelegatingMethod {
                 trait_fn,
                 sig: fn_sig.clone(),
-                call: quote! {
-                    <#impl_t::Target as #impl_trait_ident<#impl_t>>::#fn_ident #turbofish(#self_token, #(#arguments),*)
+                call: if matches!(fn_sig.inputs.first(), Some(syn::FnArg::Receiver(_))) {
+                    quote! {
+                        <#impl_t::Target as #impl_trait_ident<#impl_t>>::#fn_ident #turbofish(#self_token, #(#arguments),*)
+                    }
+                } else {
+                    // an associated fn without a receiver is the associated fn of the target
+                    quote! {
+                        <#impl_t::Target as #impl_trait_ident<#impl_t>>::#fn_ident #turbofish(#(#arguments),*)
+                    }
                 },
             }
         }
